@@ -36,15 +36,19 @@ def hamming_or_none(a, b):
 def two_collection_model(queries, reference, k, mode):
     """All (q, r, d) with d = distance(queries[q], reference[r]) <= k; sorted list."""
     out = []
+    memo = {}  # distinct (query string, reference string) -> distance or None (repertoires repeat their strings)
     for q, s in enumerate(queries):
         for r, t in enumerate(reference):
-            if mode == "hamming":
-                d = hamming_or_none(s, t)
-                if d is None:
-                    continue
+            key = (s, t)
+            if key in memo:
+                d = memo[key]
+            elif mode == "hamming":
+                d = memo[key] = hamming_or_none(s, t)
+            elif abs(len(s) - len(t)) > k:  # exact lower bound of the edit distance: saves the table for hopeless pairs
+                d = memo[key] = None
             else:
-                d = levenshtein(s, t)
-            if d <= k:
+                d = memo[key] = levenshtein(s, t)
+            if d is not None and d <= k:
                 out.append((q, r, d))
     out.sort()
     return out
